@@ -3,7 +3,7 @@ Explicit-state flavour: state = buffer contents, transition = CouldWriteValue/Tr
 candidate value on one field.  Same layouts as C02; every write is compared with the
 put_bits/representability model of cpp/ref_bits.h.  Virtual-field writes: see c03 virtual cases."""
 from checks import c02
-from checks.c02 import bounds, sample_of, TIMEOUT  # noqa
+from checks.c02 import bounds, TIMEOUT  # noqa
 
 PROPERTY = "C03"
 LEVEL = "model_checking"
@@ -30,3 +30,10 @@ def check_case(case):
         from checks import c03v
         return c03v.check_case(case)
     return c02.run_config(case, "write")
+
+
+def sample_of(case):
+    if case.get("layout") == "virtual":
+        from checks import c03v
+        return {"config": case, "emb": c03v.module_for(case)[0]}
+    return c02.sample_of(case)
